@@ -26,7 +26,7 @@ Fixpoint assign_loop (ks : list Z) (new_line step : Z) : res (list (Z * Z)) :=
   match ks with
   | [] => Ok []
   | k :: r =>
-      if (k <? 65535) && (new_line >? 65529) then Err err_IFC
+      if (k <? 65536) && (new_line >? 65529) then Err err_IFC
       else if k =? 65536 then Ok []
       else do t <- assign_loop r (new_line + step) step; Ok ((k, new_line) :: t)
   end.
@@ -42,7 +42,7 @@ Fixpoint assign_last (ks : list Z) (new_line step cur : Z) : Z :=
   match ks with
   | [] => cur
   | k :: r =>
-      if (k <? 65535) && (new_line >? 65529) then cur
+      if (k <? 65536) && (new_line >? 65529) then cur
       else if k =? 65536 then cur
       else assign_last r (new_line + step) step new_line
   end.
